@@ -9,6 +9,7 @@ import (
 	"io/fs"
 	"os"
 	"path"
+	"strings"
 	"sync"
 	"sync/atomic"
 )
@@ -390,4 +391,20 @@ func BadDirNamed(name string, err error) error {
 
 func GoodNamed(name string, err error) error {
 	return &fs.PathError{Op: "open", Path: name, Err: err}
+}
+
+// ---- fold: the test that admits a prefix and the cut that removes it use the same relation (R09.9) ----
+
+func BadFold(p, volume string) (string, bool) {
+	if len(p) < len(volume) || !strings.EqualFold(p[:len(volume)], volume) {
+		return "", false
+	}
+	return strings.TrimPrefix(p, volume), true
+}
+
+func GoodFold(p, volume string) (string, bool) {
+	if !strings.HasPrefix(p, volume) {
+		return "", false
+	}
+	return strings.TrimPrefix(p, volume), true
 }
